@@ -92,13 +92,18 @@ MaxEnclosedArea(t) == IF Enclosed(t) = {} THEN 0 ELSE
 (* Readings committed to: "one-pixel-wide, 8-connected, minimal" = one     *)
 (* component, no pixel is deletable, no 2x2 block, no end point, every     *)
 (* pixel has 2 or 3 neighbours unless it is in a junction cluster, junction*)
-(* clusters have <= MaxCluster pixels; "of a tissue" = every line         *)
-(* separates two different regions and ends in junctions, the graph is    *)
+(* clusters have <= 3 pixels and join exactly three lines and three        *)
+(* regions (a cluster where four regions meet is two junctions fused into  *)
+(* one: its pixels are not a minimal junction, and whether the two regions *)
+(* that touch only through the cluster "share a boundary line" is not      *)
+(* decidable from the image -- four of the seven shipped in-vivo frames    *)
+(* contain one and are rejected input); "of a tissue" = every line         *)
+(* separates two different regions and ends in junctions, the graph is     *)
 (* planar-consistent (Euler), the tissue does not touch the frame, and no  *)
 (* enclosed region is 4x larger than the mean of the others (such a region *)
 (* is a gap, not a cell -- the parser drops regions above 5x by design).   *)
 (***************************************************************************)
-MaxCluster(kind) == IF kind = "shipped" THEN 4 ELSE 3
+MaxCluster(kind) == 3
 MinLine(kind)    == IF kind = "voronoi" THEN 9 ELSE IF kind = "shipped" THEN 1 ELSE 3
 
 PremiseFails(t, kind, reg) ==
@@ -117,8 +122,7 @@ PremiseFails(t, kind, reg) ==
                                            /\ Len(t.lines[i].regs) = 2
                                            /\ Len(t.lines[i].ends) \in {1, 2}
           [] c = "premise.euler"     -> NClusters(t) - Len(t.lines) + t.nreg = 1 + t.ncomp
-          [] c = "premise.threeway"  -> kind = "shipped" \/
-                                        \A k \in DOMAIN t.csize : Cardinality(ClusterLines(t, k)) = 3
+          [] c = "premise.threeway"  -> \A k \in DOMAIN t.csize : Cardinality(ClusterLines(t, k)) = 3
                                                                   /\ Cardinality(ClusterRegs(t, k)) = 3
           [] c = "premise.ridge"     -> \A i \in DOMAIN t.lines : t.lines[i].len >= MinLine(kind)
           [] c = "premise.cells"     -> n >= 1 /\ (kind = "voronoi" => n \in 4..60)
